@@ -362,6 +362,29 @@ bool Hist::opManyPoints() {
     return true;
 }
 
+// Frames appended up to and just past 32 767 (POINT:FRAMES is a 16-bit field): every call around the boundary is watched by C10 (a throw must
+// leave the object unchanged) and C05 (the three views agree while the calls are accepted).  Saving such an object is C17's business.
+bool Hist::opManyFrames() {
+    if (wild || external || !prev.frames.empty() || managedEdited || offSpec) return false;
+    std::vector<std::string> labels; { const SParam* q = prev.param("POINT", "LABELS"); if (q && q->type == ezc3d::CHAR) labels = q->sv; }
+    { const SParam* a = prev.param("ANALOG", "USED"); if (a && !a->iv.empty() && a->iv[0] != 0) return false; }
+    for (int t = 0; t < 4; ++t) { const SParam* r = prev.param("POINT", "RATE"); if (r && !r->fv.empty() && bitsf(r->fv[0]) != 0.f) break; opSetRate(false); }
+    { const SParam* r = prev.param("POINT", "RATE"); if (!r || r->fv.empty() || bitsf(r->fv[0]) == 0.f) return false; }
+    if (labels.empty()) { opDeclarePoint(); const SParam* q = prev.param("POINT", "LABELS"); if (q && q->type == ezc3d::CHAR) labels = q->sv; }
+    if (labels.empty() || labels.size() > 6 || !prev.frames.empty()) return false;
+    Frame f; { Points pts; for (size_t i = 0; i < labels.size(); ++i) { Point p; p.name(labels[i]); p.x(1.5f); p.y(-2.f); p.z((float)i); pts.point(p); } f.add(pts); }
+    size_t target = 32767 + (size_t)rng.range(1, 3);
+    for (size_t i = 0; i < target; ++i) {
+        bool watch = i + 4 >= 32767;
+        if (watch) prev = take(*obj);
+        log.pre("frame", "many"); Outcome oc; VF_TRY(oc, obj->frame(f));
+        if (oc.threw || watch) { log.ev("frame_append_many", "count=" + std::to_string((unsigned long long)(i + 1)), oc); afterMutator("frame_append_many", oc); if (oc.threw) break; }
+    }
+    prev = take(*obj);
+    bump("op:many_frames"); offSpec = true; beyondInt16 = true;     // more than 32 767 frames is beyond the format: files of this object are not judged
+    return true;
+}
+
 // C14 "equal objects save to identical files": rebuild an EQUAL object along a different history (a fresh object that receives the content of the
 // final snapshot in one straight pass) and compare the two saved files byte for byte.  Only when the rebuilt object is snapshot-equal.
 void Hist::rebuildAndCompare() {
@@ -412,7 +435,7 @@ void Hist::run() {
     namedChannels = rng.chance(50);
     std::map<std::string, int> W;
     W["rate_p"] = 6; W["rate_a"] = 6; W["decl_p"] = 10; W["decl_c"] = 8; W["param"] = 8; W["pset"] = 3; W["lock"] = 3; W["append"] = 22; W["replace"] = 7; W["extend"] = 4;
-    W["resubmit"] = 4; W["mutate"] = 4; W["pcol"] = 4; W["ccol"] = 4; W["lookups"] = 5; W["rt"] = 2; W["rtc"] = 2; W["save2"] = 1; W["print"] = 0; W["wildedit"] = wild ? 5 : 0; W["copyout"] = 1; W["rmw"] = 3; W["self"] = 3; W["selfp"] = 2; W["rencopy"] = 2; W["rerate"] = 2; W["badload"] = 1; W["second"] = 1; W["manypts"] = 0; W["refedit"] = 1; W["bulk"] = 0;
+    W["resubmit"] = 4; W["mutate"] = 4; W["pcol"] = 4; W["ccol"] = 4; W["lookups"] = 5; W["rt"] = 2; W["rtc"] = 2; W["save2"] = 1; W["print"] = 0; W["wildedit"] = wild ? 5 : 0; W["copyout"] = 1; W["rmw"] = 3; W["self"] = 3; W["selfp"] = 2; W["rencopy"] = 2; W["rerate"] = 2; W["badload"] = 1; W["second"] = 1; W["manypts"] = 0; W["refedit"] = 1; W["bulk"] = 0; W["manyfr"] = 0;
     if (pf == "c06") { W["self"] = 8; W["rmw"] = 10; W["append"] = 25; W["replace"] = 18; W["extend"] = 12; W["pcol"] = 8; W["ccol"] = 8; W["param"] = 2; W["lookups"] = 1; }
     else if (pf == "c07") { W["second"] = 6; W["append"] = 25; W["replace"] = 10; W["extend"] = 6; W["pcol"] = 12; W["ccol"] = 12; W["decl_p"] = 12; W["decl_c"] = 10; W["param"] = 1; W["lookups"] = 0; W["rate_p"] = 8; W["rate_a"] = 8; }
     else if (pf == "c08") { W["refedit"] = 4; W["self"] = 8; W["rmw"] = 10; W["resubmit"] = 16; W["mutate"] = 18; W["pcol"] = 8; W["ccol"] = 8; W["copyout"] = 5; W["param"] = 1; W["lookups"] = 0; }
@@ -436,9 +459,11 @@ void Hist::run() {
     prev = take(*obj);
     checkC05(prev, "start");
     int maxops = rng.range(o.maxops / 3 + 1, o.maxops);
+    bool manyFramesCase = pf == "c10" && !external && !wild && idx % 40 == 7;      // (points only: 32 770 frames are appended first)
     // most disciplined histories start the README way: rates, then declarations
-    if (!external && rng.chance(70)) { opSetRate(false); if (rng.chance(75)) opSetRate(true); int np = rng.range(0, (int)o.geti("maxpts", 6)); for (int i = 0; i < np; ++i) opDeclarePoint(); int nc = rng.range(0, (int)o.geti("maxch", 4)); for (int i = 0; i < nc; ++i) opDeclareChannel(); }
+    if (!external && rng.chance(70)) { opSetRate(false); if (rng.chance(75)) opSetRate(true); int np = rng.range(0, (int)o.geti("maxpts", 6)); for (int i = 0; i < np; ++i) opDeclarePoint(); int nc = rng.range(0, (int)o.geti("maxch", 4)); if (manyFramesCase) nc = 0; for (int i = 0; i < nc; ++i) opDeclareChannel(); }
     int done = 0, guard = 0;
+    if (manyFramesCase && opManyFrames()) ++done;
     while (done < maxops && guard < maxops * 20) {
         ++guard;
         // diagnosed state: the object was loaded from a file whose ANALOG group lacks the mandatory parameters (empty ANALOG group, a
@@ -455,7 +480,7 @@ void Hist::run() {
         else if (n == "resubmit") ran = opResubmit(); else if (n == "mutate") ran = opMutateCaller();
         else if (n == "pcol") ran = opPointColumn(); else if (n == "ccol") ran = opChannelColumn();
         else if (n == "lookups") ran = opLookups(); else if (n == "rt") ran = opRoundTrip(false); else if (n == "rtc") ran = opRoundTrip(true);
-        else if (n == "save2") ran = opSaveTwice(); else if (n == "print") ran = opPrint(); else if (n == "wildedit") ran = opWildEdit(); else if (n == "copyout") ran = opCopyOut(); else if (n == "rmw") ran = opReadModifyWrite(); else if (n == "self") ran = opSelfFrame(); else if (n == "selfp") ran = opSelfParam(); else if (n == "rencopy") ran = opRenameCopy(); else if (n == "rerate") ran = opReRate(); else if (n == "badload") ran = opFailedLoad(); else if (n == "second") ran = opSecondObject(); else if (n == "manypts") ran = opManyPoints(); else if (n == "refedit") ran = opRetainedRefEdit(); else if (n == "bulk") ran = opBulkParams();
+        else if (n == "save2") ran = opSaveTwice(); else if (n == "print") ran = opPrint(); else if (n == "wildedit") ran = opWildEdit(); else if (n == "copyout") ran = opCopyOut(); else if (n == "rmw") ran = opReadModifyWrite(); else if (n == "self") ran = opSelfFrame(); else if (n == "selfp") ran = opSelfParam(); else if (n == "rencopy") ran = opRenameCopy(); else if (n == "rerate") ran = opReRate(); else if (n == "badload") ran = opFailedLoad(); else if (n == "second") ran = opSecondObject(); else if (n == "manypts") ran = opManyPoints(); else if (n == "refedit") ran = opRetainedRefEdit(); else if (n == "bulk") ran = opBulkParams(); else if (n == "manyfr") ran = opManyFrames();
         else ran = false;
         if (ran) ++done;
     }
